@@ -250,21 +250,29 @@ def r4(ctx, F):
         if all(o.kind == 'call' and o.key == STAGING_FN for o in po) and po:
             ctx.ok('C09.R4', '%s:%s(staging)' % (top.split('::')[-1], c.split('::')[-1]), 'content lands at a staging name', term_loc(b, bb))
             continue
-        # a parameter: every call site (in the graph) passes a staging path
-        par = [o for o in po if o.kind in ('param', 'upvar')]
-        ok = bool(par) and len(par) == len(po)
-        if ok:
-            tb = F.body(top)
+        # a parameter: every call site (in the graph) passes a staging path - directly, or as a parameter of its own (a typed-error
+        # wrapper around the worker, a phase function) whose call sites do
+        def staged_at_callers(body_, os_, depth=0):
+            par = [o for o in os_ if o.kind in ('param', 'upvar')]
+            if not par or len(par) != len([o for o in os_ if o.kind != 'comb']) or depth > 3:
+                return False
+            top_ = body_.path.split('::{')[0]
+            tb = F.body(top_)
+            if tb is None:
+                return False
             for o in par:
-                name = b.upvars.get(int(o.key)) if o.kind == 'upvar' else b.local_name(o.key)
+                name = body_.upvars.get(int(o.key)) if o.kind == 'upvar' and o.key is not None else body_.local_name(o.key) if o.kind == 'param' else None
                 pi = next((i for i in range(1, tb.argc + 1) if tb.local_name(i) == name), None)
-                sites = cg.call_sites(lambda c2: c2 == top, within=graph)
+                sites = cg.call_sites(lambda c2: c2 == top_, within=graph)
                 if pi is None or not sites:
-                    ok = False
+                    return False
                 for sb, sbb, _ in sites:
                     sfl = flow_of(sb)
-                    if not is_staging(sfl, sb.blocks[sbb]['term']['args'][pi - 1]):
-                        ok = False
+                    arg = sb.blocks[sbb]['term']['args'][pi - 1]
+                    if not (is_staging(sfl, arg) or staged_at_callers(sb, sfl.origins(arg), depth + 1)):
+                        return False
+            return True
+        ok = staged_at_callers(b, po)
         ctx.check(ok, 'C09.R4', '%s:%s' % (top.split('::')[-1], c.split('::')[-1]), 'content creator receives a staging path at every call site',
                   '%s creates file content directly at a non-staging destination path: a kill leaves a truncated live file' % top, term_loc(b, bb))
     if n < 2:
